@@ -191,6 +191,7 @@ class FlowRec:
         self.cproxy = None
         self.sproxy = None
         self.s_ever = False
+        self.connect_aborted = False
 
 
 class RealTunnel:
@@ -343,7 +344,16 @@ class RealTunnel:
             return
         sock = f.app_sock if end == 'c' else f.dst_sock
         sock.io = iov
+        self._note_abort(end, f, p)
         self._guard('client' if end == 'c' else 'server', lambda: p.callback(sock))
+
+    def _note_abort(self, end, f, p):
+        # try_connect gives up a connect that is still pending once the write side is shut (ssnet.py:144-149):
+        # the destination was never connected as far as the tunnel is concerned, so nothing it 'wrote' can arrive
+        if end == 's':
+            sw = p.wrap2
+            if sw.connect_to is not None and sw.shut_write:
+                f.connect_aborted = True
 
     def pre(self, end, i):
         if i >= len(self.flows):
@@ -427,6 +437,10 @@ class RealTunnel:
                     socks.append(sock)
                 else:
                     sock.io = QUIET        # not reported: nothing to read, writable if the proxy tries
+        for f in self.flows:
+            p = f.cproxy if end == 'c' else f.sproxy
+            if p is not None and p in hl:
+                self._note_abort(end, f, p)
         mux.rfile.data = data
         self.ready = (([mux.rfile] if data else []) + socks, list(socks), [])
         calls = []
